@@ -39,6 +39,9 @@ class Transport:
     def post(self, url, json=None, **kw):
         import json as _j
         text = _j.dumps(json)          # must be serialisable exactly as the HTTP client would do
+        return Resp(self.deliver(url, text))
+
+    def deliver(self, url, text):
         path = url.rsplit("/", 1)[-1]
         reply = self.stub.handle(path, text)
         if path == "schedule":
@@ -48,8 +51,8 @@ class Transport:
             if k:
                 import requests as _rq
                 self.stub.lost += 1
-                raise (_rq.exceptions.Timeout if k == 1 else _rq.exceptions.ConnectionError)("reply lost (injected by the harness)")
-        return Resp(reply)
+                raise (_rq.exceptions.ReadTimeout if k == 1 else _rq.exceptions.ConnectionError)("reply lost (injected by the harness)")
+        return reply
 
 
 class Stub:
@@ -301,8 +304,6 @@ def run_one(sc, ch, collect=None):
     f6.hook()
     rec_holder = {}
     decisions = {}
-    real_requests = rest.requests
-
     # wrap the sched hook to expose the current round and compare decisions
     orig_sched = f6._o_sched
 
@@ -329,22 +330,38 @@ def run_one(sc, ch, collect=None):
 
     f6._o_sched = sched_spy
     stub = None
-    try:
-        class _Lazy:
-            exceptions = real_requests.exceptions
+    # the interception point is the lowest one the `requests` library has (HTTPAdapter.send): whichever way the bridge
+    # talks HTTP through that library - requests.post, a Session, mounted adapters, timeouts - the request that would
+    # go on the wire arrives here as a prepared request (method, url, encoded body) and the reply goes back as a Response
+    import requests as _rq
+    orig_send = _rq.adapters.HTTPAdapter.send
 
-            def post(self_, url, json=None, **kw):
-                nonlocal stub
-                if stub is None:
-                    ck = Checker(f6.REC, sc)
-                    rec_holder["ck"] = ck
-                    stub = Stub(ch, sc, ck)
-                    f6.REC.cur_round = type("R", (), dict(results=[], new=[]))()
-                return Transport(stub).post(url, json=json)
-        rest.requests = _Lazy()
+    def fake_send(adapter, request, **kw):
+        nonlocal stub
+        if stub is None:
+            ck = Checker(f6.REC, sc)
+            rec_holder["ck"] = ck
+            stub = Stub(ch, sc, ck)
+            f6.REC.cur_round = type("R", (), dict(results=[], new=[]))()
+        body = request.body
+        text = body.decode("utf-8") if isinstance(body, (bytes, bytearray)) else (body or "")
+        if request.method != "POST":
+            rec_holder["ck"].flag("http-method", f"{request.method} {request.url}")
+        reply = Transport(stub).deliver(request.url, text)
+        resp = _rq.models.Response()
+        resp.status_code = 200
+        resp._content = json.dumps(reply).encode("utf-8")
+        resp.headers["Content-Type"] = "application/json"
+        resp.encoding = "utf-8"
+        resp.url = request.url
+        resp.request = request
+        resp.reason = "OK"
+        return resp
+    try:
+        _rq.adapters.HTTPAdapter.send = fake_send
         w, r, stats, exc = f6.run(sc)
     finally:
-        rest.requests = real_requests
+        _rq.adapters.HTTPAdapter.send = orig_send
         f6._o_sched = orig_sched
     ck = rec_holder.get("ck")
     viol = list(ck.viol) if ck else [("no-init-call", "the REST scheduler never called out")]
@@ -431,7 +448,13 @@ class Lenient(Chooser):
     """replays a fixed choice list, clamping each choice to the menu at hand"""
 
     def choose(self, n, label=None):
-        i = len(self.choices)
+        if label != "reply":
+            # only the replies are scripted (the loop-back server has no other choice points): everything else default
+            self.ns.append(n)
+            self.choices.append(0)
+            self.labels.append(label)
+            return 0
+        i = sum(1 for l in self.labels if l == "reply")
         c = min(self.prefix[i], n - 1) if i < len(self.prefix) else 0
         self.ns.append(n)
         self.choices.append(c)
